@@ -39,7 +39,8 @@
          literal "?."): parseIdentifierExpression compares only the value of the next token and sets
          NilSafe; such sequences are rejected later anyway.
 
-   `good BR` is the remaining, per-token, part of the carve-out (BR = locations of the `{` tokens):
+   `good BR` is the remaining, per-token, part of the carve-out (BR = locations of the `{` tokens; that BR
+   contains them is part of the predicate and holds by construction for `brace_locs ts`):
      g1  token kinds and values agree the way lexer.Lex guarantees: a Bracket token is one of
          ( ) [ ] { }, and `[` is not an Operator token;
      g2  no String token stands at the location of a `{` token (the printer decides "bare key" by
@@ -203,7 +204,8 @@ Section Norm.
 
   Definition tok_ok (BR : list loc) (tk : token) : bool :=
     match tkind_of tk with
-    | TkBracket => existsb (String.eqb (tval tk)) six_brackets                                  (* g1 *)
+    | TkBracket => existsb (String.eqb (tval tk)) six_brackets &&                               (* g1 *)
+                   (negb (val_is tk "{") || mem_loc (tloc tk) BR)          (* BR covers the `{` tokens *)
     | TkOperator => negb (val_is tk "[")                                                        (* g1 *)
     | TkString => negb (mem_loc (tloc tk) BR)                                                   (* g2 *)
     | TkNumber => num_okb (tval tk)                                                             (* g3 *)
